@@ -46,17 +46,32 @@ Ltac wf_facts H :=
   repeat (let H1 := fresh "W" in apply andb_prop in H; destruct H as [H1 H]; apply N.ltb_lt in H1); clear H.
 Lemma bool_hyp : forall (c b P : bool), implb (Bool.eqb c b) P = true -> (c = b -> P = true).
 Proof. intros [] [] []; cbn; congruence. Qed.
+(* after substitutions a range fact may speak about a term, or appear twice for one variable *)
+Ltac tidy_ranges :=
+  repeat match goal with H : ?x < 256 |- _ => tryif is_var x then fail else clear H end;
+  repeat match goal with H1 : ?x < 256, H2 : ?x < 256 |- _ => clear H2 end.
 Ltac drop_conds := repeat match goal with H : _ = true |- _ => clear H | H : _ = false |- _ => clear H end.
+(* case split on the guards of the journal pieces; a guard `neqb X r = false` with r a request byte identifies r with X (one
+   byte variable less), every other outcome is kept as a boolean premise of the goal *)
 Ltac split_list_ifs := repeat (match goal with |- context [if ?c then [?e] else []] =>
-     let E := fresh "TG" in destruct c eqn:E; revert E;
-     lazymatch goal with |- ?c' = ?b -> ?P = true => refine (bool_hyp c' b P _) end end;
+     let E := fresh "TG" in destruct c eqn:E;
+     first [ lazymatch type of E with neqb ?a ?b = false => is_var b; apply neqb_false_eq in E; subst b end
+           | revert E; lazymatch goal with |- ?c' = ?b -> ?P = true => refine (bool_hyp c' b P _) end ] end;
    cbv iota; rewrite ?neqb_refl; cbv iota).
-Ltac fold_hyps := repeat match goal with E : ?c = ?b |- ?P = true => lazymatch type of c with bool => idtac end; revert E; refine (bool_hyp c b _ _) end.
+(* comparisons with a request byte that occurs nowhere else are opaque booleans *)
+Ltac gen_neqb_req := repeat match goal with |- context [neqb ?a ?b] => is_var b; let b' := fresh "b" in generalize (neqb a b); intro b';
+   lazymatch goal with |- context [b] => fail | _ => idtac end end.
+(* bit tests on a byte that occurs in no other way (e.g. the requested pin-map bytes) are opaque booleans *)
+Ltac gen_intersects_var r :=
+  repeat match goal with |- context [intersects r ?m] => let b := fresh "m" in generalize (intersects r m); intro b end;
+  repeat match goal with |- context [?f r] => is_const f; lazymatch type of (f r) with bool => idtac end; let b := fresh "m" in generalize (f r); intro b end.
+Ltac gen_intersects := repeat match goal with H : ?r < 256 |- _ => is_var r; match goal with |- context [r] => idtac end;
+   gen_intersects_var r; clear H; clear r end.
 Ltac toggle_vc := unfold enable_ok; cbv beta iota delta [existsb]; closed_eqb; cbn [orb]; cbv iota; cbv beta iota delta [req_of find fst snd]; closed_eqb; cbv iota;
   eval_shv; unfold vals_at; rewrite ?filter_app, ?filter_if; cbv beta iota delta [jw_addr]; closed_eqb;
-  rewrite ?andb_false_r, ?andb_true_r; cbv iota; cbn [app]; rewrite ?neqb_refl; cbv iota; split_list_ifs; cbn [app map jw_val]; cbv beta iota delta [own_ok toggle_ok]; cbn [last forallb]; rewrite ?neqb_refl, ?N.eqb_refl; drop_conds; gen_neqb; clear_unused;
-  try (repeat match goal with b : bool |- _ => destruct b end; reflexivity); finite_reflect.
-Ltac vc_close := drop_conds; gen_neqb; clear_unused; try (repeat match goal with b : bool |- _ => destruct b end; reflexivity); finite_reflect.
+  rewrite ?andb_false_r, ?andb_true_r; cbv iota; cbn [app]; rewrite ?neqb_refl; cbv iota; split_list_ifs; cbn [app map jw_val]; cbv beta iota delta [own_ok toggle_ok]; cbn [last forallb]; rewrite ?neqb_refl, ?N.eqb_refl; drop_conds; tidy_ranges; gen_neqb; gen_neqb_req; gen_intersects; clear_unused;
+  try (lazymatch goal with x : N |- _ => fail | _ => idtac end; repeat match goal with b : bool |- _ => destruct b end; reflexivity); finite_reflect.
+Ltac vc_close := drop_conds; tidy_ranges; rewrite ?neqb_refl, ?N.eqb_refl, ?orb_true_r, ?andb_true_r; try reflexivity; gen_neqb; gen_neqb_req; gen_intersects; clear_unused; try (lazymatch goal with x : N |- _ => fail | _ => idtac end; repeat match goal with b : bool |- _ => destruct b end; reflexivity); finite_reflect.
 
 (* the verification conditions of one path *)
 (* path conditions collected by the case splits of the stepper *)
@@ -72,7 +87,7 @@ Proof. intros x o. destruct (neqb x o) eqn:E; [reflexivity | apply neqb_false_eq
 Ltac entries_vc :=
   repeat (apply andb_true_intro; split); spec_unfold; closed_eqb; cbn [negb orb andb]; eval_shv; rewrite ?N.eqb_refl; cbn [negb orb andb]; vc_close.
 Ltac builder_done :=
-  subst_eqs; use_conds; unfold builder_post; cbn;
+  subst_eqs; use_conds; unfold builder_post; unfold_cfg_fns; cbv_records; cbn;
   split; [ rewrite ?if_neqb_restore; repeat f_equal; subst_eqs; rewrite ?if_neqb_restore; split_ifs; neqb_facts; try reflexivity; try congruence
   | split; [ eval_shv; rewrite ?if_neqb_restore; repeat f_equal; subst_eqs; rewrite ?if_neqb_restore; split_ifs; neqb_facts; try reflexivity; try congruence
   | rewrite <- ?app_assoc; eexists; split; [ first [reflexivity | rewrite app_nil_r; reflexivity] |];
